@@ -2,6 +2,7 @@
 import re
 from ..mir import show, short, norm, subexprs, fold
 from .. import prims, panics
+from ..prims import guarded_any, guard_strs
 from ..spec import mqtt5, mqtt311
 from . import codec
 from .codec import MQTT_VARIANT_TO_SPEC, SERVER_OUTBOUND
@@ -222,6 +223,50 @@ def run(ctx):
         for nm, st in (('process_read_packet_body', 'ReadPacketBody'), ('process_read_total_remaining_length', 'ReadTotalRemainingLength'), ('process_read_packet_type', 'ReadPacketType')):
             if cs.nfn.endswith(nm):
                 prims.requires(ctx, db, cs.bb, [r'^self\.state is %s$' % st], 'state-dispatch|' + nm, 'calling ' + nm, loc=cs.loc())
+
+    # ------------------------------------------------------------ R-C03-6
+    ctx.rule('R-C03-6', 'T9 value flow', 'stream consumption arithmetic: each state function consumes exactly what it buffers/decodes and hands the untouched remainder back, so the decoded packets depend only on the concatenated stream (necessary for chunking invariance)')
+    N = r'\(\(Option::unwrap\(self\.remaining_length\) SubWithOverflow Vec::len\(self\.scratch\)\)\)\.0'
+    pb = ctx.fn('Decoder::process_read_packet_body')
+    rv = prims.ret_variants(pb)
+    ood = [(b, e) for b, e in rv if 'DecoderDirective::OutOfData' in show(e)]
+    cont = [(b, e) for b, e in rv if 'DecoderDirective::Continue' in show(e)]
+    ext_all = [c for c in pb.calls('Vec::extend_from_slice') if show(c.arg(0)) == 'self.scratch' and show(c.arg(1)) == 'bytes']
+    ok = len(ood) == 1 and len(ext_all) == 1 and guarded_any(pb, ood[0][0], [r'^\(slice::len\(bytes\) < ' + N + r'\)$']) and (pb.dominates(ext_all[0].bb, ood[0][0])) \
+        and re.search(r'1: \(array\)\{\} as &\[u8\]\}$', show(ood[0][1])) is not None
+    ctx.ob(ok, 'body state, not enough input: the whole chunk is buffered and nothing is left over', 'consume|body|short', loc=pb.loc())
+    ok = len(cont) == 1 and re.search(r'1: Index::index\(bytes, RangeFrom\{start: ' + N + r'\}\)\}$', show(cont[0][1])) is not None
+    ctx.ob(ok, 'body state, packet complete: the remainder handed back starts exactly after the bytes this packet needed', 'consume|body|rest', loc=pb.loc())
+    from ..mir import var_inits
+    ps = [(show(e), guard_strs(pb, b)) for b, e in var_inits(pb, 'packet_slice')]
+    ok = len(ps) == 2 and any(s_ == 'Deref::deref(self.scratch)' and '!Vec::is_empty(self.scratch)' in g for s_, g in ps) and \
+        any(re.match(r'^Index::index\(bytes, RangeTo\{end: ' + N + r'\}\)$', s_) and 'Vec::is_empty(self.scratch)' in g for s_, g in ps)
+    ctx.ob(ok, 'the packet body is either the scratch buffer (when something was buffered) or exactly bytes[..needed]', 'consume|body|slice', loc=pb.loc())
+    ext_part = [c for c in pb.calls('Vec::extend_from_slice') if show(c.arg(0)) == 'self.scratch' and re.match(r'^Index::index\(bytes, RangeTo\{end: ' + N + r'\}\)$', show(c.arg(1)))]
+    ctx.ob(len(ext_part) == 1 and guarded_any(pb, ext_part[0].bb, [r'^!Vec::is_empty\(self\.scratch\)$']), 'a partially buffered packet is completed with exactly the bytes it still needed', 'consume|body|complete', loc=pb.loc())
+    dpk = pb.calls('decode::decode_packet')
+    ctx.ob(len(dpk) == 1 and show(dpk[0].arg(0)) == 'Option::unwrap(self.first_byte)' and show(dpk[0].arg(1)) == 'packet_slice' and show(dpk[0].arg(2)) == 'context.protocol_version', 'the packet is decoded from the saved first byte and that body slice', 'consume|body|decode-args', loc=pb.loc())
+    rs = pb.calls('Decoder::reset_for_new_packet')
+    ctx.ob(len(rs) == 1 and cont and pb.dominates(rs[0].bb, cont[0][0]) and guarded_any(pb, rs[0].bb, [r'^decode::decode_packet\(.*\) is Ok$']), 'per-packet state is reset before the next packet is read', 'consume|body|reset', loc=pb.loc())
+    pl = ctx.fn('Decoder::process_read_total_remaining_length')
+    rvl = prims.ret_variants(pl)
+    nonempty = [(b, e) for b, e in rvl if not guarded_any(pl, b, [r'^slice::is_empty\(bytes\)$'])]
+    push = [c for c in pl.calls('Vec::push') if show(c.arg(0)) == 'self.scratch' and show(c.arg(1)).startswith('bytes[')]
+    ok = bool(nonempty) and len(push) == 1 and all(re.search(r'1: Index::index\(bytes, RangeFrom\{start: 1\}\)\}$', show(e)) for b, e in nonempty) and all(pl.dominates(push[0].bb, b) for b, e in nonempty)
+    ctx.ob(ok, 'length state: exactly one byte is buffered and consumed per step', 'consume|length', loc=pl.loc())
+    pt = ctx.fn('Decoder::process_read_packet_type')
+    rvt = [(b, e) for b, e in prims.ret_variants(pt) if not guarded_any(pt, b, [r'^slice::is_empty\(bytes\)$'])]
+    fbw = [m for m in prims.mutations(pt) if m.kind == 'assign' and show(m.path) == 'self.first_byte']
+    ok = len(rvt) == 1 and re.search(r'0: DecoderDirective::Continue\{\}, 1: Index::index\(bytes, RangeFrom\{start: 1\}\)\}$', show(rvt[0][1])) is not None and len(fbw) == 1 and re.match(r'^Option::Some\{0: bytes\[', show(fbw[0].rv)) is not None
+    ctx.ob(ok, 'type state: the first byte is saved and exactly one byte consumed', 'consume|type', loc=pt.loc())
+    # the driver loop threads the returned remainder into the next state function
+    for cs in db.calls():
+        if cs.nfn.split('::')[-1].startswith('process_read_'):
+            ctx.ob(show(cs.arg(1)) == 'current_slice', '%s is fed the remainder returned by the previous step' % cs.nfn.split('::')[-1], 'consume|loop|' + cs.nfn.split('::')[-1], loc=cs.loc())
+    cur = [show(e) for _, e in var_inits(db, 'current_slice')]
+    ctx.ob('bytes' in cur and sum(1 for c in cur if re.search(r'process_read_\w+\(.*\)\)\.1$', c)) == 3, 'the loop variable is the input chunk, then each step\'s returned remainder (%d assignments)' % len(cur), 'consume|loop|var', loc=db.loc())
+    te = [(i, s_) for (i, s_, pe, rve) in db.field_writes() if show(pe) == 'self.state' and show(rve) == 'DecoderState::TerminalError{}']
+    ctx.ob(len(te) == 1 and guarded_any(db, te[0][0], [r'^decode_result is TerminalError$']), 'a terminal error latches the decoder', 'consume|loop|latch', loc=db.loc())
 
     # ------------------------------------------------------------ R-C03-5
     ctx.rule('R-C03-5', 'T7 panic inventory', 'no panic-capable construct on the decode path (index, range, unwrap, explicit panic) is reachable without a dominating guard that makes it safe')
